@@ -552,11 +552,39 @@ def amplified(td, harvested):
                             big2 = v + tail[:4 + ln] * k
                             if len(big2) <= 3900:
                                 out.append(tlv(t, big2))
+            # (c) towers: the container nested in itself, 8 .. 64 levels deep (at every sub-TLV boundary of its value): a
+            # decoder that decodes a sub-TLV more than once is exponential in the DEPTH, not in the number of sub-TLVs
+            bounds = [len(v)]
+            for fixed in (0, 4, 8, 12, 16, 20, 22, 24, 28):
+                tail = v[fixed:]
+                if len(tail) >= 4 and 4 + struct.unpack('!H', tail[2:4])[0] <= len(tail):
+                    bounds.append(fixed)
+            for fixed in bounds:
+                head = v[:fixed]
+                for depth in (8, 14, 20, 32, 64):
+                    inner = tlv(t, v)
+                    for _ in range(depth):
+                        if len(head) + len(inner) + 4 > 3900:
+                            break
+                        inner = tlv(t, head + inner)
+                    out.append(inner)
     seen = []
     for b in out:
         if b not in seen:
             seen.append(b)
     return seen
+
+
+def text_bodies(info):
+    """every registered link-state TLV type with bodies that are hard for careless TEXT handling (names, opaque strings are
+    decoded with str methods / regular expressions): long runs of blanks, NULs or one letter followed by another character"""
+    bodies = [b' ' * 60 + b'x', b'spine' + b' ' * 70 + b'(rack 12)', b'a' * 50 + b' ' * 50 + b'!', b'\x00' * 80 + b'\x01',
+              b'\t \n' * 30 + b'z', b'a' * 120, b'ab' * 40 + b'\x00' * 40 + b'c', b'.' * 64 + b'-' * 64]
+    out = []
+    for t in info['ls_registered']:
+        for b in bodies:
+            out.append(struct.pack('!HH', t, len(b)) + b)
+    return out
 
 
 def oracle_c11(res, r, tier, td, info, harvested):
@@ -566,7 +594,9 @@ def oracle_c11(res, r, tier, td, info, harvested):
         per_inst[inst.name] = instance_inputs(info, inst, r, tier, harvested) + muts.get(inst.name, [])
     amp = amplified(td, harvested)
     res.stats.hit('amplified_containers', len(amp))
-    per_inst['ls.attr'] = amp + per_inst['ls.attr']
+    txt = text_bodies(info)
+    res.stats.hit('text_bodies', len(txt))
+    per_inst['ls.attr'] = amp + txt + per_inst['ls.attr']
     for name, fn, via_update in decoders(info):
         inputs = c11_inputs(info, name, r, tier, harvested, per_inst)
         if via_update:
